@@ -153,18 +153,15 @@ func mergeX(s, d *TSpec, opt string, prior, v Val, cfg Cfg, plain bool) Val {
 		if !prior.Nil {
 			out = clone(prior).M
 		}
+		// index by Go key equality (-0 and +0 are the same float key)
+		pos := make(map[string]int, len(out)+len(v.M))
+		for i := range out {
+			pos[normKeyForDedupe(du.Key, out[i].K).key(du.Key)] = i
+		}
 		for _, kv := range v.M {
 			k := mergeX(su.Key, du.Key, "", ZeroVal(du.Key), kv.K, cfg, true)
-			found := -1
-			nk := normKeyForDedupe(du.Key, k)
-			for i := range out {
-				// Go's key equality: -0 and +0 are the same float key
-				if Equal(du.Key, normKeyForDedupe(du.Key, out[i].K), nk) {
-					found = i
-					break
-				}
-			}
-			if found >= 0 {
+			ks := normKeyForDedupe(du.Key, k).key(du.Key)
+			if found, ok := pos[ks]; ok {
 				out[found].K = k // assignment stores the new key's bits (matters for -0 / +0)
 				if RefOmit(su.Elem, kv.V) {
 					out[found].V = ZeroVal(du.Elem)
@@ -172,6 +169,7 @@ func mergeX(s, d *TSpec, opt string, prior, v Val, cfg Cfg, plain bool) Val {
 					out[found].V = mergeX(su.Elem, du.Elem, "", out[found].V, kv.V, cfg, true)
 				}
 			} else {
+				pos[ks] = len(out)
 				out = append(out, KV{K: k, V: mergeX(su.Elem, du.Elem, "", ZeroVal(du.Elem), kv.V, cfg, true)})
 			}
 		}
